@@ -465,8 +465,12 @@ func do_PRINT_EXPR(vm *Vm, arg int32) error {
 	// one) it deals with the value
 	if sys, err := vm.context.GetModule("sys"); err == nil {
 		if hook, ok := sys.Globals["displayhook"]; ok {
-			_, err := py.Call(hook, py.Tuple{value}, nil)
-			return err
+			// The built in sys.displayhook is not implemented
+			// - only use a hook which has been installed
+			if m, isBuiltin := hook.(*py.Method); !isBuiltin || m.Module != sys {
+				_, err := py.Call(hook, py.Tuple{value}, nil)
+				return err
+			}
 		}
 	}
 	vm.frame.Globals["_"] = py.None
